@@ -14,6 +14,8 @@ def run(ctx):
         "constructor's exit with the slots bound to what was stored, and must give the same term or an overlapping shape "
         "over {None, empty, non-empty} x {None, 0, non-zero}. (SH4-BRACKET) every raw_host entry written outside the lazy filler - in the parser, a classmethod constructor or a modifier - is not the bracketed form the host encoder returns for IPv6 literals. (PQ-TAINT) no function of _url stores a caller-supplied query object under '_parsed_query' without a serialiser (the query helpers, quoters, parse_qsl, str) in between. (SH5) the authority helpers tell port 0 from an absent port. Not decided: value equality beyond that abstraction.")
     fields = pk1(ctx)
+    # the comparison audit runs whole; what it says about the ordering operators is a condition of C10, not of this property
+    ctx.outside = {"CMP2": "a condition of C10", "CMP4": "a condition of C10"}
     table = cmp_rules(ctx)
     ctx.rule("PK1")
     ctx.instance("PK1")
